@@ -271,6 +271,14 @@ func (c *Chip) paceStep(in []TLV, chaining bool, ex *Exchange) ([]byte, uint16) 
 			inv := new(big.Int).ModInverse(key.D, n)
 			ca := new(big.Int).Mul(inv, ps.skMap)
 			ca.Mod(ca, n)
+			switch c.Ov.CAMTweak {
+			case "negate":
+				ca.Sub(n, ca)
+			case "plus-one":
+				ca.Add(ca, big.NewInt(1)).Mod(ca, n)
+			case "double":
+				ca.Lsh(ca, 1).Mod(ca, n)
+			}
 			caBytes := make([]byte, (n.BitLen()+7)/8)
 			ca.FillBytes(caBytes)
 			blk := newBlock(ps.sup.Suite, ps.kenc)
